@@ -78,6 +78,9 @@ func (j *judge) pathTrigger(kind, p string) string {
 	if kind != "raw" && kind != "pointer" {
 		return kind
 	}
+	if j.c.pathTrig != "" {
+		return j.c.pathTrig
+	}
 	return j.c.spec.Mode
 }
 
@@ -391,6 +394,10 @@ func (j *judge) checkCommits() {
 			continue
 		}
 		trig := j.commitTrigger(o)
+		if o != n && oc.tree == nc.tree {
+			// nothing in the commit's tree had to change, but an ancestor was rewritten
+			run.Count("commits_with_unchanged_tree_reparented", 1)
+		}
 		if oc.author != nc.author {
 			j.viol("author-changed", trig, fmt.Sprintf("commit %s -> %s: author %q became %q", short(o), short(n), oc.author, nc.author))
 		}
